@@ -11,8 +11,59 @@ import socket
 import warnings
 
 RES = 1e-9  # clock resolution (same as time.get_clock_info('monotonic').resolution here)
-DELTA = 2.0 ** -32  # < RES: same loop iteration
 EPS = 2.0 ** -20  # > RES: adjacent, separate loop iteration
+BEFORE, AFTER = -1, 1  # rank of a scripted action relative to timers due at the same instant
+
+
+class RankedHandle(asyncio.TimerHandle):
+    """a timer handle that sorts before (rank -1) or after (rank +1) every ordinary timer
+    with the same deadline.  Ordinary TimerHandles compare by deadline only, so the order
+    of equal deadlines would otherwise be an accident of the heap's shape.  Python tries
+    the subclass's reflected comparison first, so these methods decide in both operand
+    positions.  Same deadline + rank -1 reproduces production: the selector loop queues
+    socket readers before the timers that fall due in the same iteration."""
+
+    __slots__ = ("_rank", "_seq")
+    _counter = 0
+
+    def __init__(self, when, callback, args, loop, rank, context=None):
+        super().__init__(when, callback, args, loop, context)
+        self._rank = rank
+        RankedHandle._counter += 1
+        n = RankedHandle._counter
+        tb = getattr(loop, "tiebreak", "fifo")
+        if tb == "fifo":
+            self._seq = n
+        elif tb == "lifo":
+            self._seq = -n
+        else:
+            self._seq = loop.tiebreak_rng.random()
+
+    def _key(self):
+        return (self._when, self._rank, self._seq)
+
+    @staticmethod
+    def _okey(other):
+        if isinstance(other, RankedHandle):
+            return other._key()
+        return (other._when, 0, 0)
+
+    def __lt__(self, other):
+        return self._key() < self._okey(other)
+
+    def __le__(self, other):
+        return self._key() <= self._okey(other)
+
+    def __gt__(self, other):
+        return self._key() > self._okey(other)
+
+    def __ge__(self, other):
+        return self._key() >= self._okey(other)
+
+    def __eq__(self, other):
+        return self is other
+
+    __hash__ = asyncio.TimerHandle.__hash__
 
 
 class _VSelector:
@@ -64,6 +115,8 @@ class VLoop(asyncio.BaseEventLoop):
         self._stop_when_idle = False
         self.gai_latency = 0.0
         self.gai_calls = 0
+        self.tiebreak = "fifo"
+        self.tiebreak_rng = None
         self.loop_exceptions = []
         self.tasks = []
         self.set_exception_handler(self._record_exception)
@@ -101,14 +154,33 @@ class VLoop(asyncio.BaseEventLoop):
             return [(socket.AF_INET6, type, proto, "", (host, port, 0, 0))]
         return [(socket.AF_INET, type, proto, "", (host, port))]
 
+    def call_at(self, when, callback, *args, context=None):
+        """as BaseEventLoop.call_at, but timers with exactly equal deadlines run in a
+        defined order (FIFO by default; 'lifo' / 'random' explore the other orders) instead
+        of whatever the heap's shape happens to give.  With dyadic virtual times equal
+        deadlines are common, and scripted actions pushed into the heap must not reshuffle
+        the library's own timers."""
+        if when is None:
+            raise TypeError("when cannot be None")
+        self._check_closed()
+        return self.call_at_ranked(when, 0, callback, *args, context=context)
+
     # -- driving ---------------------------------------------------------------------
+    def call_at_ranked(self, when, rank, callback, *args, context=None):
+        import heapq
+
+        h = RankedHandle(when, callback, args, self, rank, context)
+        heapq.heappush(self._scheduled, h)
+        h._scheduled = True
+        return h
+
     def run_until(self, t_end):
         """run until virtual time t_end has been reached and that instant is drained"""
 
         def mark():
             self._stop_when_idle = True
 
-        h = self.call_at(t_end, mark)
+        h = self.call_at_ranked(t_end, 2, mark)
         try:
             self.run_forever()
         finally:
@@ -227,16 +299,19 @@ class Harness:
         self.log = install_logging()
         self._actions = {}
 
-    # scripted actions: grouped per exact instant, executed in script order
-    def at(self, t, fn, *args):
-        lst = self._actions.get(t)
+    # scripted actions: grouped per (instant, rank), executed in script order.
+    # rank BEFORE: ahead of every library timer due at that instant (the production order
+    # for received datagrams); rank AFTER: behind them, still in the same loop iteration.
+    def at(self, t, fn, *args, rank=BEFORE):
+        key = (t, rank)
+        lst = self._actions.get(key)
         if lst is None:
-            lst = self._actions[t] = []
-            self.loop.call_at(t, self._fire, t)
+            lst = self._actions[key] = []
+            self.loop.call_at_ranked(t, rank, self._fire, key)
         lst.append((fn, args))
 
-    def _fire(self, t):
-        for fn, args in self._actions.pop(t, ()):
+    def _fire(self, key):
+        for fn, args in self._actions.pop(key, ()):
             fn(*args)
 
     def run(self, t_end):
